@@ -43,14 +43,15 @@ def ob_coherent_after_history(p0: bool, t0: int, g0: List[int], p1: bool, t1: in
 @obligation(funcs=["storage.kv.Index.write", "storage.kv.Index.clear", "storage.kv.TagIndex.convert", "storage.kv.TagIndex.to_key",
                    "storage.kv.WriterThread._delete_event"],
             timeout=(350, 1200),
-            bounds="write/clear symmetry: one event with symbolic kind (0..70000) and created_at (any 32-bit value), <=2 tags "
-                   "from the 10 general shapes (second one may duplicate the first), added and then deleted: only the "
+            bounds="write/clear symmetry: one event with symbolic kind (0..70000) and created_at (any 32-bit value), <=2 tags (quick tier: <=1, or one duplicated) "
+                   "from the 12 general shapes, added and then deleted: only the "
                    "tombstone remains")
 def ob_write_clear_symmetry(p: bool, kind: int, ts: int, g: List[int], dup: bool) -> str:
     """
     pre: 0 <= kind < 70000 and 1 <= ts < 4294967296
     pre: len(g) <= 2 and all(0 <= i < len(K.GEN) for i in g) and (len(g) < 2 or g[1] < 4)
     pre: not dup or len(g) == 1
+    pre: THOROUGH or (len(g) <= 1 and not p)
     post: _.startswith("ok")
     """
     logging.disable(logging.CRITICAL)
